@@ -306,6 +306,23 @@ def _connect_real(ip, st, f, args, kwargs):
 def _connect_setup(st, self_obj, vals):
     st.ghost["rely_lists"] = live_lists(vals["obj"])
     st.ghost["obj_at_entry"] = vals["obj"].snapshot()
+    d = vals["obj"].fields.get("_urwid_signals")
+    st.ghost["registry_at_entry"] = (d, dict(d.d) if d is not None else {})  # the dict OBJECT and the list OBJECT of every name
+
+
+def in_place_clauses(obj):
+    """Identity (Python `is`) of the per-sender registry: the dict object and the list object registered for every name
+    are the ones that were there before the call -- handlers are added / removed IN PLACE.  Why the statement needs it:
+    weak arguments die "at any moment", also between the moment connect() has looked its list up and the moment it
+    appends to it (it builds the new handler's weak references in between, which can run the collector); the removal
+    that follows such a death goes through disconnect_by_key, and a connect that still holds the list it looked up must
+    be appending to the list emit will read."""
+    d0, lists0 = cur().ghost["registry_at_entry"]
+    now = obj.fields.get("_urwid_signals")
+    if d0 is not None:
+        yield "signal-dict-object-kept", now is d0
+    for nm, ref in lists0.items():
+        yield f"handler-list-object-of-{nm}-kept-modified-in-place", now is not None and now.d.get(nm) is ref
 
 
 def closure_free_names(fn_key, inner):
@@ -348,11 +365,13 @@ class connect:
         for other in NAMES:
             if not bool(a.name == other):
                 yield f"other-signal-{other}-untouched", same_seq(handlers_of(st.ghost["obj_at_entry"], other), handlers_of(a.obj, other))
+        yield from in_place_clauses(a.obj)
 
     def on_raise(old, s, a, exc):
         st = cur()
         yield "only-unregistered-names-rejected", a.name == "unregistered"
         yield "nothing-written", both(*[same_seq(handlers_of(st.ghost["obj_at_entry"], nm), handlers_of(a.obj, nm)) for nm in NAMES])
+        yield from in_place_clauses(a.obj)
 
     static_checks = [
         lambda: ("weak-callback-does-not-capture-the-sender",
@@ -389,6 +408,7 @@ class disconnect_by_key:
         for other in NAMES:
             if not bool(a.name == other):
                 yield f"other-signal-{other}-untouched", same_seq(handlers_of(st.ghost["obj_at_entry"], other), handlers_of(a.obj, other))
+        yield from in_place_clauses(a.obj)
 
     # -- use at a call site (Signals.disconnect): the handler list of (obj, name), if there is one, is replaced by a
     # sequence F about which exactly the clauses proved above are known.  F's elements are *defined* as
